@@ -417,9 +417,9 @@ Proof.
   - rewrite (state_grpc wait l K). reflexivity.
 Qed.
 
-Theorem stuck_handlers_do_not_delay wait l stuck' :
+Theorem stuck_handlers_do_not_delay wait l stuck' hij' :
   r_ret (run_leaf grpc_prog wait l) =
-  r_ret (run_leaf grpc_prog wait {| lkind := lkind l; litems := litems l; lstuck := stuck' |}).
+  r_ret (run_leaf grpc_prog wait {| lkind := lkind l; litems := litems l; lstuck := stuck'; lhijacked := hij' |}).
 Proof. rewrite !leaf_ret_closed_form. reflexivity. Qed.
 
 Theorem stuck_client_closed_by_deadline wait l f :
@@ -447,7 +447,7 @@ Theorem waiting_for_handlers_refuted :
   exists wait l, lkind l = KTcp /\ r_ret (run_leaf grpc_prog wait l) = Fin wait /\
                  ~ dle (tcp_waiting_ret wait l) (Fin wait).
 Proof.
-  exists 300, {| lkind := KTcp; litems := []; lstuck := [Fin 5000] |}.
+  exists 300, {| lkind := KTcp; litems := []; lstuck := [Fin 5000]; lhijacked := [] |}.
   split; [reflexivity|]. split; [vm_compute; reflexivity|]. vm_compute. discriminate.
 Qed.
 
@@ -519,37 +519,81 @@ Proof.
   unfold history_ret. apply dmax_list_lub. intros x Hx. apply in_map_iff in Hx.
   destruct Hx as [f [<- Hf]]. destruct f; try apply dle_zero.
   induction h as [|o h IH]; cbn [run_history] in Hf; [contradiction|].
-  destruct o as [a s | a | a]; try (apply IH; exact Hf).
-  destruct Hf as [Hf | Hf]; [|apply IH; exact Hf].
-  destruct (first_touch kf a h) as [[|]|]; try discriminate.
-  inversion Hf. apply server_ret_bounded.
+  destruct o as [a s | a | a | a s]; try (apply IH; exact Hf).
+  - destruct Hf as [Hf | Hf]; [|apply IH; exact Hf].
+    destruct (first_touch kf a h) as [[|]|]; try discriminate.
+    inversion Hf. apply server_ret_bounded.
+  - destruct Hf as [Hf | Hf]; [discriminate|apply IH; exact Hf].
 Qed.
 
-Lemma first_touch_not_overwritten a later :
-  ~ In a (history_addrs later) -> first_touch key_configured a later <> Some false.
+(* well-formed histories: an entry is never overwritten while it is registered *)
+Lemma wf_first_touch reg h a :
+  well_formed_from reg h -> In a reg -> first_touch key_configured a h <> Some false.
 Proof.
-  induction later as [|o later IH]; cbn [first_touch history_addrs flat_map]; intros H; [discriminate|].
-  destruct o as [a' s | a' | a'].
-  - cbn [app] in H. destruct (addr_eqb (key_configured a') (key_configured a)) eqn:E.
-    + exfalso. apply addr_eqb_eq in E. unfold key_configured in E. apply H. left. exact E.
-    + apply IH. intros Hin. apply H. right. exact Hin.
-  - cbn [app] in H. destruct (addr_eqb (key_configured a') (key_configured a)); [discriminate|apply IH; exact H].
-  - cbn [app] in H. apply IH. exact H.
+  revert reg. induction h as [|o h IH]; cbn [first_touch well_formed_from]; intros reg Hw Hin; [discriminate|].
+  destruct o as [a' s | a' | a' | a' s].
+  - destruct Hw as [Hn Hw]. destruct (addr_eqb (key_configured a') (key_configured a)) eqn:E.
+    + exfalso. apply addr_eqb_eq in E. unfold key_configured in E. subst a'. contradiction.
+    + apply (IH (a' :: reg) Hw). right. exact Hin.
+  - destruct (addr_eqb (key_configured a') (key_configured a)) eqn:E; [discriminate|].
+    apply (IH _ Hw). apply filter_In. split; [exact Hin|].
+    unfold key_configured in E. destruct (addr_eqb a a') eqn:E2; [|reflexivity].
+    apply addr_eqb_eq in E2. subst a'. assert (addr_eqb a a = true) by (apply addr_eqb_eq; reflexivity). congruence.
+  - apply (IH reg Hw Hin).
+  - contradiction.
 Qed.
 
-Theorem history_no_accept wait h f t :
-  NoDup (history_addrs h) ->
+Lemma history_no_accept_from reg wait h f t :
+  well_formed_from reg h ->
   In f (run_history grpc_prog key_configured wait h) -> sfate_accepts f t = false.
 Proof.
-  induction h as [|o h IH]; cbn [run_history history_addrs flat_map]; intros Hd Hf; [contradiction|].
-  destruct o as [a s | a | a]; cbn [app] in Hd; try (apply IH; assumption).
-  inversion Hd as [|x xs Hn Hd']; subst.
-  destruct Hf as [Hf | Hf]; [|apply IH; assumption].
-  pose proof (first_touch_not_overwritten a h Hn) as Ht.
-  destruct (first_touch key_configured a h) as [[|]|]; subst f; cbn [sfate_accepts].
-  - reflexivity.
-  - exfalso. apply Ht. reflexivity.
-  - apply server_never_accepts. left; reflexivity.
+  revert reg. induction h as [|o h IH]; cbn [run_history well_formed_from]; intros reg Hw Hf; [contradiction|].
+  destruct o as [a s | a | a | a s].
+  - destruct Hw as [Hn Hw]. destruct Hf as [Hf | Hf]; [|apply (IH _ Hw Hf)].
+    pose proof (wf_first_touch (a :: reg) h a Hw (or_introl eq_refl)) as Ht.
+    destruct (first_touch key_configured a h) as [[|]|]; subst f; cbn [sfate_accepts].
+    + reflexivity.
+    + exfalso. apply Ht. reflexivity.
+    + apply server_never_accepts. left; reflexivity.
+  - apply (IH _ Hw Hf).
+  - apply (IH _ Hw Hf).
+  - contradiction.
+Qed.
+
+(* clause 1 for every well-formed history: restarts on a closed address included *)
+Theorem history_no_accept wait h f t :
+  well_formed h ->
+  In f (run_history grpc_prog key_configured wait h) -> sfate_accepts f t = false.
+Proof. apply history_no_accept_from. Qed.
+
+Lemma wf_starts reg started :
+  NoDup (map fst started) -> (forall a, In a reg -> ~ In a (map fst started)) ->
+  well_formed_from reg (map (fun p => HStart (fst p) (snd p)) started).
+Proof.
+  revert reg. induction started as [|[a s] l IH]; cbn [map well_formed_from fst snd]; intros reg Hd Hr; [exact I|].
+  inversion Hd as [|x xs Hn Hd']; subst. split.
+  - intros Hin. apply (Hr a Hin). left. reflexivity.
+  - apply IH; [exact Hd'|]. intros b [<-|Hb] Hin; [contradiction|]. apply (Hr b Hb). right. exact Hin.
+Qed.
+
+(* pairwise distinct start addresses are a special case *)
+Theorem distinct_starts_well_formed started :
+  NoDup (map fst started) -> well_formed (map (fun p => HStart (fst p) (snd p)) started).
+Proof. intros Hd. apply wf_starts; [exact Hd|]. intros a []. Qed.
+
+(* the tcp-dynamic restart: start a, CloseProxy a, start a again *)
+Example restart_history_well_formed :
+  well_formed [HStart (1, 9000) (Single (mkleaf KTcp [Fin 90; Inf])); HClose (1, 9000);
+               HStart (1, 9000) (Single (mkleaf KTcp [Fin 90])); HStart (1, 80) (Single (mkleaf KHttp []))] /\
+  run_history grpc_prog key_configured 300
+    [HStart (1, 9000) (Single (mkleaf KTcp [Fin 90; Inf])); HClose (1, 9000);
+     HStart (1, 9000) (Single (mkleaf KTcp [Fin 90])); HStart (1, 80) (Single (mkleaf KHttp []))]
+  = [SClosed; SReached (run_server grpc_prog 300 (Single (mkleaf KTcp [Fin 90])));
+     SReached (run_server grpc_prog 300 (Single (mkleaf KHttp [])))].
+Proof.
+  split; [|vm_compute; reflexivity].
+  unfold well_formed. cbn [well_formed_from filter addr_eqb fst snd negb N.eqb andb Pos.eqb].
+  repeat split; try exact I; intros H; cbn [In] in H; repeat destruct H as [H|H]; try discriminate; try contradiction.
 Qed.
 
 (* without CloseProxy calls a history is the list of started servers *)
@@ -560,15 +604,63 @@ Theorem history_without_close wait started :
 Proof.
   induction started as [|[a s] later IH]; cbn [map run_history fst snd]; intros H; [reflexivity|].
   inversion H as [|x xs Hn Hd]; subst. rewrite (IH Hd).
-  assert (Hh : history_addrs (map (fun p => HStart (fst p) (snd p)) later) = map fst later).
-  { clear. induction later as [|[a' s'] l IH]; cbn [map history_addrs flat_map app fst snd]; [reflexivity|].
-    f_equal. exact IH. }
-  pose proof (first_touch_not_overwritten a (map (fun p => HStart (fst p) (snd p)) later)) as Ht.
-  rewrite Hh in Ht. specialize (Ht Hn).
+  assert (Hw : well_formed_from [a] (map (fun p => HStart (fst p) (snd p)) later)).
+  { apply wf_starts; [exact Hd|]. intros b [<-|[]]. exact Hn. }
+  pose proof (wf_first_touch [a] _ a Hw (or_introl eq_refl)) as Ht.
   assert (Hc : first_touch key_configured a (map (fun p => HStart (fst p) (snd p)) later) <> Some true).
   { clear. induction later as [|[a' s'] l IH]; cbn [map first_touch fst snd]; [discriminate|].
     destruct (addr_eqb (key_configured a') (key_configured a)); [discriminate|exact IH]. }
   destruct (first_touch key_configured a _) as [[|]|]; try reflexivity; exfalso; auto.
+Qed.
+
+(* F-C18-3 (open): a listener started after Shutdown took its snapshot (the tcp-dynamic watcher
+   of main.go is never stopped) is never shut down: it accepts until the process exits *)
+Theorem late_start_accepts gp kf wait h a s :
+  In (HStartDuring a s) h -> In SLate (run_history gp kf wait h).
+Proof.
+  induction h as [|o h IH]; cbn [In run_history]; intros H; [contradiction|].
+  destruct H as [-> | H]; [left; reflexivity|].
+  destruct o; try (right; apply IH; exact H); apply IH; exact H.
+Qed.
+
+Theorem late_start_refuted :
+  exists h, has_late_start h = true /\
+    exists f, In f (run_history grpc_prog key_configured 300 h) /\ forall t, sfate_accepts f t = true.
+Proof.
+  exists [HStart (1, 80) (Single (mkleaf KHttp [Fin 90])); HStartDuring (1, 9000) (Single (mkleaf KTcp []))].
+  split; [reflexivity|]. exists SLate. split; [vm_compute; auto|reflexivity].
+Qed.
+
+(* well-formed histories contain no late start: the two theorems are complementary *)
+Lemma well_formed_no_late_start reg h : well_formed_from reg h -> has_late_start h = false.
+Proof.
+  revert reg. induction h as [|o h IH]; cbn [well_formed_from has_late_start existsb]; intros reg Hw; [reflexivity|].
+  destruct o as [a s | a | a | a s]; cbn [orb].
+  - destruct Hw as [_ Hw]. apply (IH _ Hw).
+  - apply (IH _ Hw).
+  - apply (IH _ Hw).
+  - contradiction.
+Qed.
+
+(* F-C18-2 (open): http.Server.Shutdown does not track hijacked connections (websocket sessions
+   through HTTPProxy): it returns without waiting for them, and the process exit cuts a session
+   that would have ended within the wait *)
+Theorem hijacked_refuted :
+  exists wait l n, lkind l = KHttp /\ In (Fin n) (lhijacked l) /\ n <= wait /\
+    r_hijacked (run_leaf grpc_prog wait l) = [Done n] /\
+    survives (shutdown wait [Single l]) (Done n) = false.
+Proof.
+  exists 800, {| lkind := KHttp; litems := []; lstuck := []; lhijacked := [Fin 300] |}, 300.
+  split; [reflexivity|]. split; [left; reflexivity|]. split; [lia|]. split; vm_compute; reflexivity.
+Qed.
+
+(* it survives exactly when something else keeps Shutdown busy that long, e.g. any TCP listener *)
+Theorem hijacked_survives_with_tcp wait srvs s l n :
+  In s srvs -> In l (leaves s) -> lkind l = KTcp -> n <= wait ->
+  survives (shutdown wait srvs) (Done n) = true.
+Proof.
+  intros Hs Hl K Hn. cbn [survives]. eapply dle_trans; [apply dle_fin; exact Hn|].
+  apply (tcp_takes_full_wait wait srvs s l Hs Hl K).
 Qed.
 
 (* a CloseProxy that held the registry lock while draining (NOT the code) would let every other
@@ -580,6 +672,14 @@ Theorem lock_held_during_close_refuted :
 Proof.
   exists 200, 300, (Single (mkleaf KTcp [Fin 90])). split; [lia|]. split; [vm_compute; reflexivity|].
   vm_compute. discriminate.
+Qed.
+
+Example history_nonvacuous_wf :
+  well_formed [HStart (1, 80) (Single (mkleaf KHttp [Fin 90])); HStart (1, 9000) (Single (mkleaf KTcp [Fin 90; Inf]));
+     HClose (1, 9000); HStart (1, 9000) (Single (mkleaf KTcp [])); HCloseDuring (1, 80)].
+Proof.
+  unfold well_formed. cbn [well_formed_from filter addr_eqb fst snd negb N.eqb andb Pos.eqb].
+  repeat split; try exact I; intros H; cbn [In] in H; repeat destruct H as [H|H]; try discriminate; try contradiction.
 Qed.
 
 Example history_nonvacuous :
